@@ -1,7 +1,259 @@
-/-  C10/Driver — line protocol front end (core-only).  Placeholder until the property is built. -/
-import OttoVerif.Base.Proto
-namespace OttoVerif.C10.Driver
+/-
+  C10/Driver — line protocol front end (core-only).
 
-def handle (_ws : List String) : String := "bad-op"
+    new <patHex> <flagsHex>                      construct only:  ok | error
+    x   <patHex> <flagsHex> <subjHex> <steps>    history on one RegExp object and one subject
+    tr  <patHex>                                 TransformRegExp alone: ok:<hex> | inc:<hex> | invalid
+
+  pat / flags / subject / replacement strings are hex of UTF-8 bytes (`-` = empty).
+  steps (comma separated): e  t  m  s  rS:<hex>  rF  p:<n|u>  L:<li>      li: i<int> nan pinf ninf h<int>
+  reply: <model> <spec> <dev>
+-/
+import OttoVerif.Base.Proto
+import OttoVerif.Base.Str
+import OttoVerif.C10.Transform
+import OttoVerif.C10.Parse
+import OttoVerif.C10.Match
+import OttoVerif.C10.Model
+import OttoVerif.C10.Spec
+namespace OttoVerif.C10.Driver
+open OttoVerif OttoVerif.Proto OttoVerif.C10
+
+def dropS (t : String) (n : Nat) : String := String.ofList (t.toList.drop n)
+
+def hex? (t : String) : Option (List Nat) := if t = "-" then some [] else bytes? t
+
+/-- unicodeIDContinue for non-ASCII code points: not modelled (generators never escape such a
+    character); Latin-1 letters are answered correctly for robustness. -/
+def idc (c : Nat) : Bool := (0xC0 ≤ c ∧ c ≤ 0xFF ∧ c ≠ 0xD7 ∧ c ≠ 0xF7) ∨ c = 0xAA ∨ c = 0xB5 ∨ c = 0xBA
+
+/-! ## the concrete engines -/
+
+/-- decode a Go string into (rune, byte offset) pairs -/
+def decodeOffs : Nat → List Nat → Nat → List (Nat × Nat)
+  | 0, _, _ => []
+  | f + 1, bs, off =>
+    match Str.decodeRune bs with
+    | none => []
+    | some (r, w) => (r, off) :: decodeOffs f (bs.drop w) (off + w)
+
+/-- Go's regexp on the tree `r`: doExecute(s, pos) in byte offsets -/
+def goEngine (d : Dialect) (r : Re) : Model.Eng where
+  findAt := fun s pos =>
+    let cs := decodeOffs s.length s 0
+    let chars := cs.map (·.1)
+    let offs : Array Nat := (cs.map (·.2)).toArray.push s.length
+    let ci := (cs.filter fun p => p.2 < pos).length
+    match search d r chars ci with
+    | none => none
+    | some (st, y) =>
+      let bo (i : Nat) : Nat := offs.getD i s.length
+      some (some (bo st, bo y.pos) :: y.caps.map fun o => o.map fun (a, b) => (bo a, bo b))
+
+/-- ES5 [[Match]] on the tree `r` -/
+def es5Engine (d : Dialect) (r : Re) : Spec.SEng where
+  matchAt := fun S q =>
+    match matchAt d r S q with
+    | none => none
+    | some y => some (some (q, y.pos) :: y.caps)
+
+/-! ## construction -/
+
+inductive Built (α : Type)
+  | error
+  | opaque
+  | ok (global : Bool) (d : Dialect) (r : α)
+
+/-- otto: newRegExpObject = flags, TransformRegExp, (?flags:…), regexp.Compile -/
+def buildModel (pat flags : List Nat) : Built Re :=
+  match Model.parseFlags flags false false false with
+  | none => .error
+  | some (g, i, mm) =>
+    match Model.transform idc pat with
+    | .invalid => .error
+    | .incompatible _ => .error
+    | .ok gp =>
+      -- the wrapper (?im:…) is represented by the dialect record; a stray `)` in gp would close
+      -- it early, but TransformRegExp has already rejected unbalanced parentheses
+      match parsePattern true gp with
+      | .err => .error
+      | .opaque => .opaque
+      | .ok r => .ok g { es5 := false, icase := i, multiline := mm } r
+
+/-- ES5: §15.10.4.1 + the property's "unsupported constructs are rejected" -/
+def buildSpec (pat flags : List Nat) : Built Re :=
+  match Spec.parseFlags flags false false false with
+  | none => .error
+  | some (g, i, mm) =>
+    match parsePattern false pat with
+    | .ok r => if r.unsupported then .error else .ok g { es5 := true, icase := i, multiline := mm } r
+    | _ => .error
+
+/-! ## rendering -/
+
+def liOut : LI → String
+  | .int z => "i" ++ toString z
+  | .nan => "nan" | .pinf => "pinf" | .ninf => "ninf"
+  | .frac f => "h" ++ toString f
+
+def li? (t : String) : Option LI :=
+  if t = "nan" then some .nan else if t = "pinf" then some .pinf else if t = "ninf" then some .ninf
+  else if t.startsWith "i" then (dropS t 1).toInt?.map .int
+  else if t.startsWith "h" then (dropS t 1).toInt?.map .frac
+  else none
+
+def itemOut : Option (List Nat) → String
+  | none => "U"
+  | some u => "=" ++ unitsOut u
+
+def resOut : Res → String
+  | .null => "null" | .undef => "undef"
+  | .bool b => if b then "true" else "false"
+  | .num n => "n" ++ toString n
+  | .str u => "s" ++ unitsOut u
+  | .arr idx items =>
+    "A" ++ (match idx with | some i => toString i | none => "") ++ ":" ++ String.intercalate "," (items.map itemOut)
+
+def histOut (h : List (Res × LI)) : String :=
+  String.intercalate ";" (h.map fun (r, li) => resOut r ++ "@" ++ liOut li)
+
+def step? (t : String) : Option Step :=
+  if t = "e" then some .exec else if t = "t" then some .test else if t = "m" then some .mtch
+  else if t = "s" then some .search else if t = "rF" then some .replaceF
+  else if t.startsWith "rS:" then (hex? (dropS t 3)).map .replaceS
+  else if t = "p:u" then some (.split none)
+  else if t.startsWith "p:" then (dropS t 2).toNat?.map fun n => .split (some n)
+  else if t.startsWith "L:" then (li? (dropS t 2)).map .setLI
+  else none
+
+def steps? (t : String) : Option (List Step) := (t.splitOn ",").mapM step?
+
+/-! ## deviation regions: decidable predicates of the request -/
+
+def Re.any (p : Re → Bool) : Re → Bool
+  | .group r => p (.group r) || Re.any p r
+  | .ncgroup r => p (.ncgroup r) || Re.any p r
+  | .seq a b => p (.seq a b) || Re.any p a || Re.any p b
+  | .alt a b => p (.alt a b) || Re.any p a || Re.any p b
+  | .quant r q l => p (.quant r q l) || Re.any p r
+  | .look n r => p (.look n r) || Re.any p r
+  | r => p r
+
+def itemHasSpace : CItem → Bool
+  | .one (.cls .s) | .one (.cls .S) => true
+  | _ => false
+
+def nullable : Re → Bool
+  | .empty | .bol | .eol | .wordb | .nwordb => true
+  | .group r | .ncgroup r => nullable r
+  | .seq a b => nullable a && nullable b
+  | .alt a b => nullable a || nullable b
+  | .quant r q _ => q.min == 0 || nullable r
+  | .look _ _ => true
+  | _ => false
+
+def foldSpecial (c : Nat) : Bool := c = 0x212A ∨ c = 0x17F ∨ c = 0x212B
+
+def itemFoldSpecial : CItem → Bool
+  | .one a => foldSpecial a.pt
+  | .range a b => (a.pt ≤ 0x212A ∧ 0x212A ≤ b.pt) ∨ (a.pt ≤ 0x17F ∧ 0x17F ≤ b.pt) ∨ (a.pt ≤ 0x212B ∧ 0x212B ≤ b.pt)
+
+/-- the pattern mentions (by any spelling, or inside a range) one of the characters whose
+    case folding differs between ES5 and Go -/
+def reFoldSpecial (r : Re) : Bool :=
+  Re.any (fun | .ch sp => foldSpecial sp.val | .set _ is => is.any itemFoldSpecial | _ => false) r
+def ltSpecial (c : Nat) : Bool := c = 13 ∨ c = 0x2028 ∨ c = 0x2029
+
+/-- `\` [1-7] [0-7] in the pattern text (skipping escaped backslashes) -/
+def hasOctalBackref : List Nat → Bool
+  | 92 :: 92 :: r => hasOctalBackref r
+  | 92 :: a :: b :: r => (49 ≤ a ∧ a ≤ 55 ∧ 48 ≤ b ∧ b ≤ 55) || hasOctalBackref (b :: r)
+  | _ :: r => hasOctalBackref r
+  | [] => false
+
+def hasTwoDigitRef (n : Nat) : List Nat → Bool
+  | 36 :: 36 :: r => hasTwoDigitRef n r
+  | 36 :: a :: b :: r =>
+    (isDigitC a ∧ isDigitC b ∧ 10 ≤ (a - 48) * 10 + (b - 48) ∧ (a - 48) * 10 + (b - 48) ≤ n) || hasTwoDigitRef n (a :: b :: r)
+  | _ :: r => hasTwoDigitRef n r
+  | [] => false
+
+def devNew (pat flags : List Nat) : List String :=
+  let fl := if flags.any (fun c => c ≠ 103 ∧ c ≠ 105 ∧ c ≠ 109) then ["flags_unknown"] else []
+  let pt := match parsePattern false pat with
+    | .ok r =>
+      (if Re.any (fun | .set _ [] => true | _ => false) r then ["empty_class"] else []) ++
+      (if r.unsupported ∧ hasOctalBackref pat then ["backref_octal"] else []) ++
+      (if Re.any (fun | .quant _ q _ => decide (q.min > 1000) || (match q.max with | some k => decide (k > 1000) | none => false) | _ => false) r then ["repeat_limit"] else [])
+    | _ => ["lenient_syntax"]
+  fl ++ pt
+
+def devX (pat flags subj : List Nat) (steps : List Step) : List String :=
+  let base := devNew pat flags
+  match parsePattern false pat with
+  | .ok r =>
+    let chars := Str.decodeRunes subj
+    let g := flags.contains 103
+    let ic := flags.contains 105
+    let ml := flags.contains 109
+    let nonAscii := subj.any (· ≥ 128)
+    let has (p : Step → Bool) := steps.any p
+    let execLike := has fun | .exec | .test => true | .mtch => !g | _ => false
+    let allLike := has fun | .mtch => g | .replaceS _ | .replaceF => g | .split _ => true | _ => false
+    let anyMatch := has fun | .setLI _ => false | _ => true
+    let nl := nullable r
+    base ++
+    (if anyMatch ∧ Re.any (· == .dot) r ∧ chars.any ltSpecial then ["dot_lineterm"] else []) ++
+    (if anyMatch ∧ Re.any (fun | .cls .s | .cls .S => true | .set _ is => is.any itemHasSpace | _ => false) r
+        ∧ chars.any (fun c => isSpaceES5 c != isSpaceGo c) then ["space_class"] else []) ++
+    (if anyMatch ∧ ml ∧ Re.any (fun | .bol | .eol => true | _ => false) r ∧ chars.any ltSpecial then ["multiline_lineterm"] else []) ++
+    (if anyMatch ∧ ic ∧ (chars.any foldSpecial ∨ reFoldSpecial r) then ["icase_fold"] else []) ++
+    (if anyMatch ∧ Re.any (fun | .quant b q _ => b.ngroups > 0 ∧ q.max != some 1 ∧ q.max != some 0 | _ => false) r then ["capture_reset"] else []) ++
+    (if anyMatch ∧ Re.any (fun | .quant b _ _ => nullable b | _ => false) r then ["nullable_loop"] else []) ++
+    (if anyMatch ∧ chars.any (· ≥ 0x10000) then ["astral_subject"] else []) ++
+    (if g ∧ execLike ∧ Re.any (fun | .bol | .wordb | .nwordb => true | _ => false) r then ["exec_substring"] else []) ++
+    (if g ∧ nonAscii ∧ (execLike ∨ allLike) then ["lastindex_bytes"] else []) ++
+    (if nonAscii ∧ has (· == .search) then ["search_bytes"] else []) ++
+    (if g ∧ has (· == .mtch) then ["match_global"] else []) ++
+    (if g ∧ has (fun | .replaceS _ | .replaceF => true | _ => false) then ["replace_global_lastindex"] else []) ++
+    (if nl ∧ allLike then ["empty_adjacent"] else []) ++
+    (if has (fun | .replaceS rv => hasTwoDigitRef r.ngroups rv | _ => false) then ["subst_two_digit"] else [])
+  | _ => base
+
+def devOut (ds : List String) : String := if ds.isEmpty then "-" else String.intercalate "," ds
+
+def builtTok : Built Re → String
+  | .error => "error" | _ => "ok"
+
+def trOut : Model.TRes → String
+  | .ok p => "ok:" ++ (if p.isEmpty then "-" else bytesOut (Str.encodeRunes p))
+  | .incompatible p => "inc:" ++ (if p.isEmpty then "-" else bytesOut (Str.encodeRunes p))
+  | .invalid => "invalid"
+
+def handle (ws : List String) : String :=
+  match ws with
+  | ["tr", p] => match hex? p with
+    | some pb =>
+      let t := trOut (Model.transform idc (Str.decodeRunes pb))
+      t ++ " " ++ t ++ " -"
+    | none => "bad-op"
+  | ["new", p, f] => match hex? p, hex? f with
+    | some pb, some fb =>
+      let pat := Str.decodeRunes pb
+      builtTok (buildModel pat fb) ++ " " ++ builtTok (buildSpec pat fb) ++ " " ++ devOut (devNew pat fb)
+    | _, _ => "bad-op"
+  | ["x", p, f, s, st] => match hex? p, hex? f, hex? s, steps? st with
+    | some pb, some fb, some sb, some steps =>
+      let pat := Str.decodeRunes pb
+      let mo := match buildModel pat fb with
+        | .error => "error"
+        | .opaque => "unmodelled"
+        | .ok g d r => histOut (Model.run (goEngine d r) sb { global := g, lastIndex := .int 0 } steps)
+      let sp := match buildSpec pat fb with
+        | .ok g d r => histOut (Spec.run (es5Engine d r) (Str.unitsOfBytes sb) Str.unitsOfBytes { global := g, lastIndex := .int 0 } steps)
+        | _ => "error"
+      mo ++ " " ++ sp ++ " " ++ devOut (devX pat fb sb steps)
+    | _, _, _, _ => "bad-op"
+  | _ => "bad-op"
 
 end OttoVerif.C10.Driver
